@@ -17,6 +17,10 @@ pub struct InstOpts {
     pub admin: Option<String>,
     pub funds: Option<Vec<Coin>>,
     pub salt: Option<Vec<u8>>,
+    /// earlier calls of the Option-typed setters on the same proxy (`with_admin`, `with_salt`),
+    /// overwritten by the final ones (an explicit `None` if the final value is unset)
+    pub pre_admin: Vec<Option<String>>,
+    pub pre_salt: Vec<Option<Vec<u8>>>,
 }
 
 type ExecFn<C, Q> = Box<dyn Fn(&SvApp<C, Q>, &Addr, &[Value], &[Coin], &Addr) -> Result<AppResponse, ErrRepr>>;
